@@ -13,6 +13,7 @@ STATEMENT_RANGES = [(0, 99), (100, 199), (200, 299), (300, 349), (350, 399), (40
 INF = float('inf')
 # tiny LP: max x0 + 2 x1  s.t. x0 + x1 <= 5, 0 <= x <= 10; scripted answer x=(0.5,1) is feasible, objective 2.5
 X_SPEC, Y_SPEC, OBJ_SPEC, OBJ_TEXT = '0.5,1', '0', '2.5', '2.5'
+X_VIOL = '6,6'
 PREDICATES = ['IsProblemSolved', 'IsProblemSolvedOrFeasible', 'IsProblemInfeasible', 'IsProblemUnbounded',
               'IsProblemIndiffInfOrUnb', 'IsProblemInfOrUnb']
 
@@ -125,7 +126,8 @@ class Oracle:
 # ------------------------------------------------------------------------------------------- one driver run
 def script_of(case):
     code, px, py, po, mip = case
-    return {'code': code, 'msg': 'scripted result', 'x': X_SPEC if px else 'none', 'y': Y_SPEC if py else 'none',
+    # px == 2: a primal answer that violates the row x0 + x1 <= 5 (used to observe whether the automatic solution check ran)
+    return {'code': code, 'msg': 'scripted result', 'x': (X_VIOL if px == 2 else X_SPEC) if px else 'none', 'y': Y_SPEC if py else 'none',
             'obj': OBJ_SPEC if po else 'none', 'ismip': mip}
 
 
@@ -140,7 +142,7 @@ def observe(binary, workdir, nl, case):
             m = re.search(r'; (?:feasrelax )?objective (\S+)\s*$', first)
             o.update(sol=True, first=first, objtxt=m.group(1) if m else None,
                      objword='objective' in first, objno=s['objno'], code=s['code'],
-                     nprimals=s['nprimals'], nduals=s['nduals'])
+                     nprimals=s['nprimals'], nduals=s['nduals'], tolviol='Tolerance violations' in s['message'])
         except (ValueError, IndexError) as e:
             o.update(sol=False, parse_error=str(e), raw=r['sol'][-300:])
     return o
@@ -163,6 +165,14 @@ def judge(orc, case, o):
             f.append(('objective value wrong in message', {'message': o['first'], 'expected': OBJ_TEXT}))
     elif cand is False and has:
         f.append(('objective in message', {'message': o['first']}))
+    # the automatic solution check (default options) looks at every returned solution except for the codes documented as
+    # "infeasible" (sol:chk:infeas=0): a violating answer must be reported, a feasible one must not
+    if px == 2:
+        expect = orc.cat(code) != 'infeasible'
+        if o.get('tolviol') != expect:
+            f.append(('solution check ran' if o.get('tolviol') else 'solution check skipped', {'message': o['first']}))
+    elif px == 1 and o.get('tolviol'):
+        f.append(('solution check reports a feasible answer', {'message': o['first']}))
     return f
 
 
@@ -282,6 +292,7 @@ def _main(chk, tier, binary):
     mips = [0, 1] if tier == 'thorough' else [0]
     cases = [(code, px, py, po, mip) for mip in mips for code in range(LO, HI + 1)
              for px in (1, 0) for py in (1, 0) for po in (1, 0)]
+    cases += [(code, 2, 1, 1, mip) for mip in mips for code in range(LO, HI + 1)]
     nw = vcheck.NCPU
     jobs = [(binary, i, nl, cases[i::nw], ranges) for i in range(nw)]
     with multiprocessing.get_context('fork').Pool(nw) as pool:
@@ -316,7 +327,10 @@ def _main(chk, tier, binary):
            'objective value wrong in message': 'C10 objective value in message differs from the reported value for %s',
            'objective in message': 'C10 objective in message although no solution candidate is indicated for %s',
            '.sol solve code differs from reported code': 'C10 .sol solve code differs from the reported code for %s',
-           'driver failed': 'C10 driver failed (non-zero exit or no readable .sol) for %s'}
+           'driver failed': 'C10 driver failed (non-zero exit or no readable .sol) for %s',
+           'solution check skipped': 'C10 violating answer not reported by the solution check (treated as infeasible class) for %s',
+           'solution check ran': 'C10 solution check ran on an answer of the infeasible class (sol:chk:infeas=0) for %s',
+           'solution check reports a feasible answer': 'C10 solution check reports a feasible answer for %s'}
     for kind, bycode in sorted(fails.items()):
         for lo, hi, rng in split_by_ranges(orc, bycode.keys()):
             cs = [c for c in bycode if lo <= c <= hi]
@@ -378,13 +392,13 @@ def _main(chk, tier, binary):
 
     chk.cov['evaluations'] = chk.cov.get('driver_runs', 0) + chk.cov.get('predicate_evaluations', 0) + chk.cov.get('bang_runs', 0)
     vcheck.finalize_classes(chk)
-    chk.set('rule', 'complete enumeration: every status code in [%d, %d] x {primal, dual, objective value present/absent}%s, '
+    chk.set('rule', 'complete enumeration: every status code in [%d, %d] x {primal, dual, objective value present/absent}%s plus, per code, one complete answer whose primal point violates the row (does the automatic solution check treat the code as the infeasible class?), '
             'one driver process per case (scripted backend on the real RunBackendApp path, tiny LP with one objective); '
             'the six StdBackend classification predicates called on the same backend class for every code; `-!` once. '
             'Oracle: range table parsed from doc/source/features-guide.rst. A class is (documented class of the code, '
             'presence pattern, what the message / .sol showed) or (predicate, documented class, answer).'
             % (LO, HI, ' x IsMIP {0,1}' if tier == 'thorough' else ' (IsMIP=0, so duals are reported)'))
-    chk.set('bounds', {'codes': [LO, HI], 'presence_patterns': 8, 'ismip': mips, 'predicates': PREDICATES,
+    chk.set('bounds', {'codes': [LO, HI], 'presence_patterns': 9, 'ismip': mips, 'predicates': PREDICATES,
                        'documented_ranges': ['%d-%d %s' % r[:3] for r in ranges]})
     chk.assumptions += [
         'domain: the documented table covers 0..999; codes -200..-1 (sol::NOT_SET, sol::UNKNOWN and everything between) are '
